@@ -162,7 +162,23 @@ func stReplay(raw json.RawMessage, idx int, tr *traceWriter) {
 			id = "?status" + strconv.Itoa(w.Code)
 		}
 	}
-	tr.emit(map[string]interface{}{"ev": "static", "method": c.Method, "segs": c.Segs, "prefix": c.Prefix, "kind": kind, "id": id,
+	// conditional re-request: with SetETag a matching If-None-Match must be answered 304 without a body
+	inmStatus, inmBody := 0, 0
+	if et := w.Header().Get("ETag"); et != "" && kind == "file" {
+		req2 := &http.Request{Method: c.Method, URL: &url.URL{Path: req.URL.Path}, Header: http.Header{"If-None-Match": {et}},
+			Proto: "HTTP/1.1", ProtoMajor: 1, ProtoMinor: 1, Host: "x"}
+		w2 := httptest.NewRecorder()
+		func() {
+			defer func() {
+				if r := recover(); r != nil {
+					panicked = true
+				}
+			}()
+			f.ServeHTTP(w2, req2)
+		}()
+		inmStatus, inmBody = w2.Code, w2.Body.Len()
+	}
+	tr.emit(map[string]interface{}{"ev": "static", "inm_status": inmStatus, "inm_body": inmBody, "method": c.Method, "segs": c.Segs, "prefix": c.Prefix, "kind": kind, "id": id,
 		"loc": loc, "written": written && !(nextRan && !writtenAtNext), "next_ran": nextRan, "leaked": len(leaked), "panicked": panicked, "status": w.Code})
 }
 
